@@ -39,29 +39,32 @@ type Tree struct {
 	Ntx    int     `json:"ntx"`
 }
 
+// a delivered log: [tx, block, removed flag]
 type Events struct {
 	Chain []int      `json:"chain"`
+	CRcpt [][][3]int `json:"crcpt"` // logs inside the receipts of each ChainEvent
 	Head  []int      `json:"head"`
-	Rm    [][][2]int `json:"rm"`
-	Logs  [][][2]int `json:"logs"`
+	Rm    [][][3]int `json:"rm"`
+	Logs  [][][3]int `json:"logs"`
 }
 
 // State is the projection compared with (or logged for) the specification.
 type State struct {
-	Known    []int  `json:"known"`
-	HasState []int  `json:"hasState"`
-	Rcpt     []int  `json:"rcpt"`
-	Canon    []int  `json:"canon"`
-	Hb       int    `json:"hb"`
-	Hh       int    `json:"hh"`
-	Hs       int    `json:"hs"`
-	Txl      []int  `json:"txl"`
-	Tail     int    `json:"tail"`
-	Resolve  []int  `json:"resolve"`
-	DResolve []int  `json:"dresolve"`
-	RResolve []int  `json:"rresolve"`
-	Ev       Events `json:"ev"`
-	Err      string `json:"err"`
+	Known    []int      `json:"known"`
+	HasState []int      `json:"hasState"`
+	Rcpt     []int      `json:"rcpt"`
+	Canon    []int      `json:"canon"`
+	Hb       int        `json:"hb"`
+	Hh       int        `json:"hh"`
+	Hs       int        `json:"hs"`
+	Txl      []int      `json:"txl"`
+	Tail     int        `json:"tail"`
+	CLogs    [][][3]int `json:"clogs"` // logs of the canonical blocks as served by GetReceiptsByHash
+	Resolve  []int      `json:"resolve"`
+	DResolve []int      `json:"dresolve"`
+	RResolve []int      `json:"rresolve"`
+	Ev       Events     `json:"ev"`
+	Err      string     `json:"err"`
 }
 
 type Act struct {
@@ -87,8 +90,8 @@ type Behaviour struct {
 // ---------------------------------------------------------------- block universe
 
 var (
-	engine  = ethash.NewFaker()
-	logInit = common.FromHex("60006000a000") // PUSH1 0 PUSH1 0 LOG0 STOP: one log per creation
+	engine   = ethash.NewFaker()
+	logInit  = common.FromHex("60006000a000") // PUSH1 0 PUSH1 0 LOG0 STOP: one log per creation
 	gasPrice = big.NewInt(4 * params.InitialBaseFee)
 )
 
@@ -292,25 +295,38 @@ func (n *Node) close() {
 	n.db.Close()
 }
 
-func (n *Node) logs(ls []*types.Log) [][2]int {
-	out := make([][2]int, 0, len(ls))
+func (n *Node) logs(ls []*types.Log) [][3]int {
+	out := make([][3]int, 0, len(ls))
 	for _, l := range ls {
 		tx, ok := n.u.txOf[l.TxHash]
 		if !ok {
 			tx = -2
 		}
-		out = append(out, [2]int{tx, n.u.id(l.BlockHash)})
+		rm := 0
+		if l.Removed {
+			rm = 1
+		}
+		out = append(out, [3]int{tx, n.u.id(l.BlockHash), rm})
+	}
+	return out
+}
+
+func (n *Node) receiptLogs(rs []*types.Receipt) [][3]int {
+	out := [][3]int{}
+	for _, r := range rs {
+		out = append(out, n.logs(r.Logs)...)
 	}
 	return out
 }
 
 func (n *Node) drain() (Events, int) {
-	ev := Events{Chain: []int{}, Head: []int{}, Rm: [][][2]int{}, Logs: [][][2]int{}}
+	ev := Events{Chain: []int{}, CRcpt: [][][3]int{}, Head: []int{}, Rm: [][][3]int{}, Logs: [][][3]int{}}
 	maxHead := -1
 	for {
 		select {
 		case e := <-n.chainCh:
 			ev.Chain = append(ev.Chain, n.u.id(e.Header.Hash()))
+			ev.CRcpt = append(ev.CRcpt, n.receiptLogs(e.Receipts))
 		case e := <-n.headCh:
 			ev.Head = append(ev.Head, n.u.id(e.Header.Hash()))
 			if h := int(e.Header.Number.Uint64()); h > maxHead {
@@ -397,6 +413,15 @@ func (n *Node) project() (State, []string) {
 	if g := u.id(rawdb.ReadCanonicalHash(db, 0)); g != 0 {
 		odd = append(odd, fmt.Sprintf("canonical hash of number 0 is block %d", g))
 	}
+	// receipts of the canonical blocks as the chain API serves them (receipts cache)
+	st.CLogs = make([][][3]int, N)
+	headNum := int(bc.CurrentBlock().Number.Uint64())
+	for i := 1; i <= N; i++ {
+		st.CLogs[i-1] = [][3]int{}
+		if h := rawdb.ReadCanonicalHash(db, uint64(i)); i <= headNum && h != (common.Hash{}) {
+			st.CLogs[i-1] = n.receiptLogs(bc.GetReceiptsByHash(h))
+		}
+	}
 	st.Hb, st.Hh, st.Hs = u.id(rawdb.ReadHeadBlockHash(db)), u.id(rawdb.ReadHeadHeaderHash(db)), u.id(rawdb.ReadHeadFastBlockHash(db))
 	if m := u.id(bc.CurrentBlock().Hash()); m != st.Hb {
 		odd = append(odd, fmt.Sprintf("CurrentBlock=%d but stored head block=%d", m, st.Hb))
@@ -459,10 +484,26 @@ func normalize(s *State) {
 		s.Ev.Head = []int{}
 	}
 	if s.Ev.Rm == nil {
-		s.Ev.Rm = [][][2]int{}
+		s.Ev.Rm = [][][3]int{}
 	}
 	if s.Ev.Logs == nil {
-		s.Ev.Logs = [][][2]int{}
+		s.Ev.Logs = [][][3]int{}
+	}
+	if s.Ev.CRcpt == nil {
+		s.Ev.CRcpt = [][][3]int{}
+	}
+	for i := range s.Ev.CRcpt {
+		if s.Ev.CRcpt[i] == nil {
+			s.Ev.CRcpt[i] = [][3]int{}
+		}
+	}
+	if s.CLogs == nil {
+		s.CLogs = [][][3]int{}
+	}
+	for i := range s.CLogs {
+		if s.CLogs[i] == nil {
+			s.CLogs[i] = [][3]int{}
+		}
 	}
 	if s.Canon == nil {
 		s.Canon = []int{}
@@ -606,7 +647,7 @@ func (n *Node) recoverImage(img *memorydb.Database, live State) (State, tl.M) {
 	rn.db = rawdb.NewDatabase(rn.kv)
 	rn.open()
 	rec, _ := rn.project()
-	rec.Ev, rec.Err = Events{Chain: []int{}, Head: []int{}, Rm: [][][2]int{}, Logs: [][][2]int{}}, "none"
+	rec.Ev, rec.Err = Events{Chain: []int{}, CRcpt: [][][3]int{}, Head: []int{}, Rm: [][][3]int{}, Logs: [][][3]int{}}, "none"
 	normalize(&rec)
 	heal := tl.M{"target": live.Hb, "err": "none", "hb": -1, "hh": -1, "canonok": false, "state": false, "stop": "ok"}
 	if live.Hb > 0 {
@@ -687,7 +728,7 @@ func runRecord(path string, seed int64, ntraces, steps, nblocks, ntx int, sum *t
 		scheme := []string{rawdb.HashScheme, rawdb.PathScheme}[r.Intn(2)]
 		n := newNode(u, scheme)
 		st0, _ := n.project()
-		st0.Ev, st0.Err = Events{Chain: []int{}, Head: []int{}, Rm: [][][2]int{}, Logs: [][][2]int{}}, "none"
+		st0.Ev, st0.Err = Events{Chain: []int{}, CRcpt: [][][3]int{}, Head: []int{}, Rm: [][][3]int{}, Logs: [][][3]int{}}, "none"
 		tr.Emit(tl.M{"op": "reset", "tree": t, "scheme": scheme, "st": st0})
 		children := make([][]int, nb+1)
 		for b := 1; b <= nb; b++ {
@@ -785,7 +826,7 @@ func runScenario(in, path string, sum *tl.Summary) {
 		u := buildUniverse(sc.Tree)
 		n := newNode(u, sc.Scheme)
 		st0, _ := n.project()
-		st0.Ev, st0.Err = Events{Chain: []int{}, Head: []int{}, Rm: [][][2]int{}, Logs: [][][2]int{}}, "none"
+		st0.Ev, st0.Err = Events{Chain: []int{}, CRcpt: [][][3]int{}, Head: []int{}, Rm: [][][3]int{}, Logs: [][][3]int{}}, "none"
 		tr.Emit(tl.M{"op": "reset", "tree": sc.Tree, "scheme": sc.Scheme, "st": st0})
 		for _, a := range sc.Calls {
 			var got State
